@@ -35,7 +35,7 @@ def _cs(kind, vals):
 
 BIG = 2 ** 53          # neighbours that collapse to one double: constants must be compared exactly, not after float()
 INTS = _cs("int", [1, 2, 3, 5]) + [{"c": "int", "v": 1, "sp": "+1"}] + _cs("int", [BIG, BIG + 1])
-FLOATS = _cs("float", ["1.0", "2.0", "1.5", "3.00", "0.5"])
+FLOATS = _cs("float", ["1.0", "2.0", "1.5", "3.00", "0.5", "9007199254740992.0"])     # the last one IS 2**53: equal to the integer BIG, one less than BIG + 1
 NUMS = INTS + FLOATS
 BOOLS = _cs("bool", [True, False])
 Y_STR = _cs("str", ["a", "A", "b", "ab", "a%", ""])
@@ -759,16 +759,21 @@ def _confusable_constant_pair(draw):
     t, steps = [("b", _k("x")), ("a", _k("x")), ("a", _k("z", "*")), ("a", _k("n", "k-2"))][draw(_I4)]
     op = ["=", "!=", "<", ">=", "IN"][draw(st.integers(0, 4))]
     n1, n2 = (BIG, BIG + 1) if draw(_I2) else (BIG + 1, BIG)
+    # ... or an integer next to the FLOAT spelling of 2**53: subtracting / converting mixed constants rounds the integer first
+    as_float = draw(_I4) == 0
+
+    def num(n):
+        return {"c": "float", "sp": "%d.0" % n} if as_float and n == BIG else {"c": "int", "v": n}
 
     def cmp_(n):
-        rhs = {"c": "int", "v": n} if op != "IN" else {"c": "set", "items": [{"c": "int", "v": n}, {"c": "int", "v": 5}]}
+        rhs = num(n) if op != "IN" else {"c": "set", "items": [num(n), {"c": "int", "v": 5}]}
         return {"k": "obs", "e": {"k": "cmp", "path": {"t": t, "steps": steps}, "op": op, "neg": bool(draw(_I4) == 0) and op not in P.ORDER_OPS, "rhs": rhs}}
     p = cmp_(n1)
     q = copy.deepcopy(p)
     if op == "IN":
-        q["e"]["rhs"]["items"][0]["v"] = n2
+        q["e"]["rhs"]["items"][0] = num(n2)
     else:
-        q["e"]["rhs"]["v"] = n2
+        q["e"]["rhs"] = num(n2)
     if draw(_I4) == 0:      # OR of both vs one of them (a careless de-duplication collapses the OR)
         p = {"k": "oor", "args": [copy.deepcopy(p), copy.deepcopy(q)]}
     return p, q
